@@ -180,11 +180,21 @@ func newV2Model() *v2Model {
 var v2Probes = []string{"a", "b", "c", "d", "e", "0", "aa", "bz", "z"}
 var v2Bounds = [][]byte{nil, []byte("0"), []byte("a"), []byte("aa"), []byte("b"), []byte("c"), []byte("cc"), []byte("e"), []byte("z")}
 
+// v2Value: the value written for a key in a version. Key "a" always gets the same value, so that histories
+// contain rewrites of an identical value (a new leaf of the new version must still be created); the other keys
+// get a value that names the version.
+func v2Value(k string, ver int64) string {
+	if k == "a" {
+		return "same"
+	}
+	return fmt.Sprintf("v%d", ver)
+}
+
 // applyBlock applies one version's writes to the v2 tree and to the model, compares the results, commits, and
 // compares the commit hash with v1 and the reference.
 func applyBlock(t *iavl2.Tree, m *v2Model, b v2Block) string {
-	val := fmt.Sprintf("v%d", m.ver+1)
 	for _, o := range b {
+		val := v2Value(o.K, m.ver+1)
 		if o.Del {
 			got, removed, err := t.Remove([]byte(o.K))
 			old, had := m.c[o.K]
@@ -649,8 +659,8 @@ func runC20(cfg v2Cfg, hist []v2Block, conts []v2Block, dir string, st *v2Stats)
 }
 
 func applyBlockModelOnly(m *v2Model, b v2Block) string {
-	val := fmt.Sprintf("v%d", m.ver+1)
 	for _, o := range b {
+		val := v2Value(o.K, m.ver+1)
 		if o.Del {
 			delete(m.c, o.K)
 			m.root, _, _ = ref.Remove(m.root, []byte(o.K))
